@@ -25,6 +25,7 @@ FLAVOURS = {
              "-O1 -g -fno-omit-frame-pointer -fsanitize=address,undefined,float-cast-overflow -fno-sanitize-recover=all "
              "-D_GLIBCXX_SANITIZE_VECTOR" + (" " + os.environ["VERIF_ASAN_EXTRA"] if os.environ.get("VERIF_ASAN_EXTRA") else ""), True),
     "rel": ("g++", "-std=c++14", "-O2 -g", True),
+    "memcheck": ("g++", "-std=c++14", "-O0 -g", True),   # for valgrind runs of the drivers (development: selftest/memcheck_all.sh); locals live in memory at -O0
     "cfg-gxx-O0": ("g++", "-std=c++14", "-O0", False),
     "cfg-gxx-O2": ("g++", "-std=c++14", "-O2", False),
     "cfg-clangxx-O0": ("clang++", "-std=c++14", "-O0", False),
